@@ -599,7 +599,7 @@ func checkC18(p *core.Program, r *core.Report) {
 	checkEmptyNode(p, r, tm, eng)
 	// Update and NewTree
 	checkTreeTop(p, r, tm, eng)
-	r.Floor("tree functions", 13)
+	r.Floor("tree functions", 8)
 }
 
 func checkEmptyNode(p *core.Program, r *core.Report, tm *treeModel, eng *tf.Engine) {
